@@ -220,8 +220,29 @@ def _weibull_inputs(cls, x, nu, rho, xi, tau, _ARGS, _KWARGS=None):
 def weibull_log_survival_is_minus_cumulative_hazard(cls, x, nu, rho, xi, tau, _ARGS, result):
     STATS["weibull.compute_log_survival::calls"] += 1
     xv, w, shifts, T, tol = _weibull_inputs(cls, x, nu, rho, xi, tau, _ARGS)
-    return _check_entries("weibull/log-survival-mismatch", "weibull.compute_log_survival", result, -T["neg_log_S"], tol,
-                          t=_np(xv), tau=_np(tau), xi=_np(xi), nu=_np(nu), rho=_np(rho))
+    got, want = _np(result), -T["neg_log_S"]
+    if got.shape != want.shape:
+        return _fail("weibull/log-survival-mismatch/shape", f"weibull.compute_log_survival: result shape {got.shape} != broadcast shape of the inputs {want.shape}")
+    judged = (np.abs(want) < BIG32) if tol is TOL32 else None
+    bad, j = bad_entries(got, want, tol[0], _weibull_atol(tol, _np(rho), T), judged)
+    STATS["weibull.compute_log_survival::entries_judged"] += int(j.sum())
+    STATS["weibull.compute_log_survival::entries_not_judged"] += int(j.size - j.sum())
+    if bad.any():
+        return _fail("weibull/log-survival-mismatch", "weibull.compute_log_survival: entry differs from the textbook negative log-density",
+                     **_first(bad, ("got", got), ("want", want), ("t", _np(xv)), ("tau", _np(tau)), ("xi", _np(xi)), ("nu", _np(nu)), ("rho", _np(rho))))
+    return True
+
+
+def _weibull_atol(tol, rho, T):
+    """Absolute tolerance per entry for Weibull terms: the float32 rounding of the reparametrised time / scale (k*eps) is amplified by the
+    shape: (t/nu)^rho has relative error rho*k*eps, the log-hazard absolute error (rho-1)*k*eps.  Negligible for usual shapes (1e-5 at rho=10),
+    decisive for the peaked laws a short fit may wander into (rho = 1e3 ... 1e30)."""
+    eps = 6e-8 if tol is TOL32 else 1.2e-16
+    shape = np.shape(T["nll"])
+    rho_b = np.abs(np.broadcast_to(np.asarray(rho, dtype=np.float64), shape))
+    s_ = np.where(np.isfinite(T["neg_log_S"]), np.abs(T["neg_log_S"]), 0.0)
+    with np.errstate(all="ignore"):
+        return tol[1] + 16.0 * eps * rho_b * (1.0 + s_)
 
 
 def _penalty_problem(got, T, sign, rho_b):
@@ -259,14 +280,18 @@ def weibull_log_hazard_is_textbook(cls, x, nu, rho, xi, tau, _ARGS, result):
         return _fail("weibull/censored-contributes-hazard", "compute_log_likelihood_hazard: a censored individual gets a non-zero log-hazard term",
                      **_first(cens & (got != 0), ("got", got), ("t", _np(xv)), ("tau", _np(tau))))
     want = np.where(T["observed"] & T["after"], T["log_h"], np.nan)
-    bad, _ = bad_entries(got, want, tol[0], tol[1])
+    atol_w = _weibull_atol(tol, _np(rho), T)
+    bad, _ = bad_entries(got, want, tol[0], atol_w)
     under = bad & (np.abs(T["log_pow"]) > POW_UNDERFLOW)
     if under.any():
         return _fail(KEY_UNDERFLOW, "compute_log_likelihood_hazard: the hazard under/overflows in float64 and its log is reported as 0 (or log of a "
                      "denormal, or inf) instead of the finite log-hazard", **_first(under, ("got", got), ("want", want), ("t", _np(xv)), ("tau", _np(tau)),
                                                                            ("xi", _np(xi)), ("nu", _np(nu)), ("rho", _np(rho))))
-    return _check_entries("weibull/log-hazard-mismatch", "weibull.compute_log_likelihood_hazard", result, want, tol,
-                          t=_np(xv), tau=_np(tau), xi=_np(xi), nu=_np(nu), rho=_np(rho))
+    if bad.any():
+        return _fail("weibull/log-hazard-mismatch", "weibull.compute_log_likelihood_hazard: entry differs from the textbook log-hazard",
+                     **_first(bad, ("got", got), ("want", want), ("t", _np(xv)), ("tau", _np(tau)), ("xi", _np(xi)), ("nu", _np(nu)), ("rho", _np(rho))))
+    STATS["weibull.compute_log_likelihood_hazard::entries_judged"] += int(np.isfinite(want).sum())
+    return True
 
 
 def weibull_nll_is_textbook_right_censored_density(cls, x, nu, rho, xi, tau, _ARGS, result):
@@ -282,7 +307,7 @@ def weibull_nll_is_textbook_right_censored_density(cls, x, nu, rho, xi, tau, _AR
     prob, _ = _penalty_problem(got, T, +1.0, rho_b)
     if prob:
         return _fail(prob[0], "weibull._nll: " + prob[1])
-    rtol, atol = tol
+    rtol, atol = tol[0], _weibull_atol(tol, _np(rho), T)
     cens, obs_after = ~T["observed"], T["observed"] & T["after"]
     bad_c, _ = bad_entries(got, T["neg_log_S"], rtol, atol, cens)
     if bad_c.any():
@@ -294,7 +319,7 @@ def weibull_nll_is_textbook_right_censored_density(cls, x, nu, rho, xi, tau, _AR
             return _fail(KEY_UNDERFLOW, "weibull._nll: the hazard underflows in float64 and the log-hazard of an observed event is lost",
                          **_first(bad_o, ("got", got), ("want", T["nll"]), ("t", _np(xv)), ("tau", _np(tau)), ("rho", _np(rho))))
         only_surv, _ = bad_entries(got, T["neg_log_S"], rtol, atol, obs_after)
-        if not (only_surv & bad_o).any() and np.abs(T["log_h"][bad_o]).max() > 10 * atol:
+        if not (only_surv & bad_o).any() and np.abs(T["log_h"][bad_o]).max() > 10 * float(np.max(atol)):
             return _fail("weibull/observed-missing-log-hazard", "weibull._nll: an observed event contributes only -log S(t), the log-hazard is missing",
                          **_first(bad_o, ("got", got), ("want", T["nll"]), ("t", _np(xv)), ("tau", _np(tau))))
         return _fail("weibull/nll-entry-mismatch", "weibull._nll: observed event differs from -log S(t) - log h(t)",
